@@ -181,3 +181,33 @@ Definition get_by_name (tbl : list pid_entry) (ids : list N) (name : list N) (ma
   end.
 Definition store_count (tbl : list pid_entry) (man : N) : N :=
   len (filter (fun e => fst (fst e) =? man) tbl).
+
+(* ---------------------------------------------------------------- loading with a site overrides.proto
+   An override entry replaces the WHOLE definition of (manufacturer, PID value): name and the four
+   optional frame formats; everything else that is shipped stays (PidStoreLoader::BuildStore loads the
+   overrides first and GetPidList skips a PID value that is already present). *)
+Definition ovr_entry : Type := (N * N * list N * list (option (list fd)))%type.
+Definition ovr_man (o : ovr_entry) : N := fst (fst (fst o)).
+Definition ovr_pid (o : ovr_entry) : N := snd (fst (fst o)).
+Definition overridden (os : list ovr_entry) (man pid : N) : bool :=
+  existsb (fun o => (ovr_man o =? man) && (ovr_pid o =? pid)) os.
+Fixpoint kinds_from (k : N) (ds : list (option (list fd))) (man pid : N) : list ((N * N * N) * list fd) :=
+  match ds with
+  | [] => []
+  | None :: r => kinds_from (k + 1) r man pid
+  | Some fs :: r => ((man, pid, k), fs) :: kinds_from (k + 1) r man pid
+  end.
+Definition ovr_descs (os : list ovr_entry) : list ((N * N * N) * list fd) :=
+  flat_map (fun o => kinds_from 0 (snd o) (ovr_man o) (ovr_pid o)) os.
+Definition override_descs (tbl : list ((N * N * N) * list fd)) (os : list ovr_entry) :=
+  filter (fun e => negb (overridden os (fst (fst (fst e))) (snd (fst (fst e))))) tbl ++ ovr_descs os.
+Definition override_pids (tbl : list pid_entry) (os : list ovr_entry) : list pid_entry :=
+  filter (fun e => negb (overridden os (fst (fst e)) (snd (fst e)))) tbl ++
+  map (fun o => (ovr_man o, ovr_pid o, snd (fst o))) os.
+(* manufacturers owning a store: the shipped ones plus the new ones of the overrides *)
+Fixpoint add_ids (ids : list N) (new : list N) : list N :=
+  match new with
+  | [] => ids
+  | m :: r => if existsb (N.eqb m) ids then add_ids ids r else add_ids (ids ++ [m]) r
+  end.
+Definition override_ids (ids : list N) (os : list ovr_entry) : list N := add_ids ids (map ovr_man os).
